@@ -194,7 +194,7 @@ func (c *Ctx) runTop() {
 		}
 		if pt, ok := under(p.Type()).(*types.Pointer); ok {
 			// captured variable: no callee can write it
-			c.stable = append(c.stable, stableCell{addr: v, typ: pt.Elem()})
+			c.stable = append(c.stable, stableCell{addr: v, typ: pt.Elem(), stores: storesTo(p)})
 		}
 		fr.freev = append(fr.freev, v)
 	}
@@ -377,10 +377,14 @@ type frameCond struct {
 type modLocs struct {
 	cells  map[string][]T // heap name -> leaf addresses
 	maps   []T            // map refs whose contents may change
-	slices []struct {
-		s    T
-		heap string
-	}
+	slices []sliceLoc
+}
+
+// sliceLoc: all cells of heap `heap` for which in(a) holds (a is the name of
+// an address variable) may be written.
+type sliceLoc struct {
+	heap string
+	in   func(a string) string
 }
 
 func (c *Ctx) evalModifies(ct *Contract, env *Env) *modLocs {
@@ -413,14 +417,31 @@ func (c *Ctx) evalModifies(ct *Contract, env *Env) *modLocs {
 			case *types.Map:
 				ml.maps = append(ml.maps, v.t)
 			case *types.Slice:
-				if _, isStruct := under(u.Elem()).(*types.Struct); isStruct {
-					c.unsupported("modifies %s: slice of structs", cl.Text)
-					continue
+				sv := v.t.S
+				// leaf cells of every element: paths of field ids below ridx(arr, j)
+				var walk func(t types.Type, path []int)
+				walk = func(t types.Type, path []int) {
+					if st, ok := under(t).(*types.Struct); ok {
+						for i := 0; i < st.NumFields(); i++ {
+							walk(st.Field(i).Type(), append(append([]int(nil), path...), c.R.FieldID(t, i)))
+						}
+						return
+					}
+					heap := c.R.CellHeap(c.R.SortOf(t))
+					p := append([]int(nil), path...)
+					ml.slices = append(ml.slices, sliceLoc{heap: heap, in: func(a string) string {
+						// a = rfld(...rfld(ridx(arr,j), p[0])..., p[k-1])
+						cur := a
+						var conds []string
+						for i := len(p) - 1; i >= 0; i-- {
+							conds = append(conds, fmt.Sprintf("((_ is rfld) %s) (= (rfid %s) %d)", cur, cur, p[i]))
+							cur = "(rbase " + cur + ")"
+						}
+						conds = append(conds, fmt.Sprintf("((_ is ridx) %s) (= (rarr %s) (sarr %s)) (<= (soff %s) (riidx %s)) (< (riidx %s) (+ (soff %s) (scap %s)))", cur, cur, sv, sv, cur, cur, sv, sv))
+						return "(and " + strings.Join(conds, " ") + ")"
+					}})
 				}
-				ml.slices = append(ml.slices, struct {
-					s    T
-					heap string
-				}{v.t, c.R.CellHeap(c.R.SortOf(u.Elem()))})
+				walk(u.Elem(), nil)
 			default:
 				c.unsupported("modifies %s: [*] on %s", cl.Text, v.typ)
 			}
@@ -463,7 +484,7 @@ func (c *Ctx) frameConds(fr *frame, ct *Contract, st *State) []frameCond {
 			}
 			for _, s := range ml.slices {
 				if s.heap == h {
-					excl = append(excl, fmt.Sprintf("(not (and ((_ is ridx) a) (= (rarr a) (sarr %s)) (<= (soff %s) (riidx a)) (< (riidx a) (+ (soff %s) (scap %s)))))", s.s.S, s.s.S, s.s.S, s.s.S))
+					excl = append(excl, "(not "+s.in("a")+")")
 				}
 			}
 		} else {
@@ -540,8 +561,8 @@ func (fr *frame) contractCall(ct *Contract, callee *ssa.Function, cc *ssa.CallCo
 		for _, s := range ml.slices {
 			cur := c.getHeap(st, s.heap)
 			nh := c.fresh(s.heap, cur.Sort)
-			c.emit("(assert (forall ((a Ref)) (! (=> (not (and ((_ is ridx) a) (= (rarr a) (sarr %s)) (<= (soff %s) (riidx a)) (< (riidx a) (+ (soff %s) (scap %s))))) (= (select %s a) (select %s a))) :pattern ((select %s a)))))",
-				s.s.S, s.s.S, s.s.S, s.s.S, nh.S, cur.S, nh.S)
+			c.emit("(assert (forall ((a Ref)) (! (=> (not %s) (= (select %s a) (select %s a))) :pattern ((select %s a)))))",
+				s.in("a"), nh.S, cur.S, nh.S)
 			c.setHeap(st, s.heap, nh)
 		}
 	}
